@@ -513,6 +513,9 @@ type QueueCase struct {
 	IdleMs    int     `json:"idle_ms"` // wait time: queue idle time-out of the run loop (real ms) and record-time span
 	ZipMin    int     `json:"zipmin"`
 	Producers [][]Rec `json:"producers"`
+	// Future: the records carry time stamps some days ahead of the host clock (the producer's clock, or a log
+	// line's own time stamp, is not the agent's): waiting times are intervals, not comparisons with the wall clock
+	Future bool `json:"future,omitempty"`
 }
 
 func runQueue(c QueueCase) *pbt.Result {
@@ -531,6 +534,9 @@ func runQueue(c QueueCase) *pbt.Result {
 		total += len(recs)
 		packs := make([]*pack.LogSinkPack, len(recs))
 		tm := int64(1_700_000_000_000)
+		if c.Future {
+			tm = time.Now().UnixMilli() + 10*86400000
+		}
 		for i, r := range recs {
 			tm += r.Dt
 			packs[i] = mkRecord(r, tm, int64(pi)<<32|int64(i+1))
@@ -558,6 +564,10 @@ func runQueue(c QueueCase) *pbt.Result {
 	}
 	for emitted() < total && time.Now().Before(deadline) {
 		time.Sleep(5 * time.Millisecond)
+	}
+	if n := emitted(); n < total {
+		// judged before the sender is stopped: the flush on stop would hide a batch that was never flushed while idle
+		return pbt.Fail("%d of %d queued records were emitted within 30 s of the last Add although the queue has been idle far longer than the waiting time in force (%d ms); records stamped ahead of the host clock: %v", n, total, c.IdleMs, c.Future)
 	}
 	z.StopForVerif()
 	stopped = true
@@ -613,10 +623,11 @@ func runQueue(c QueueCase) *pbt.Result {
 
 var specQueue = pbt.Register(pbt.Spec[QueueCase]{
 	Prop: "C16", Name: "queue-mode",
-	Rule:  "1-4 producer goroutines Add generated records to a fresh sender in queue mode whose real run() goroutine batches them (idle time-out 20-50 ms); after the queue has drained the sender is stopped; oracle (sound for any schedule) = every record emitted exactly once, each producer's records in order, RecordCount/compression/decodability per pack, no pack altered after hand-over; non-trivial = >= 2 packs or >= 2 producers; distinct by case",
+	Rule:  "1-4 producer goroutines Add generated records (a third of the cases: stamped ten days ahead of the host clock) to a fresh sender in queue mode whose real run() goroutine batches them (idle time-out 20-50 ms); after the queue has drained the sender is stopped; oracle (sound for any schedule) = every record emitted exactly once, each producer's records in order, RecordCount/compression/decodability per pack, no pack altered after hand-over; non-trivial = >= 2 packs or >= 2 producers; distinct by case",
 	Quick: 30, Thorough: 1000,
 	Draw: func(t *rapid.T) QueueCase {
-		c := QueueCase{Buf: rapid.OneOf(rapid.IntRange(1, 2000), rapid.IntRange(1, 65536)).Draw(t, "buf"), IdleMs: rapid.IntRange(20, 50).Draw(t, "idle"), ZipMin: rapid.IntRange(0, 600).Draw(t, "zipmin")}
+		c := QueueCase{Buf: rapid.OneOf(rapid.IntRange(1, 2000), rapid.IntRange(1, 65536)).Draw(t, "buf"), IdleMs: rapid.IntRange(20, 50).Draw(t, "idle"), ZipMin: rapid.IntRange(0, 600).Draw(t, "zipmin"),
+			Future: rapid.IntRange(0, 2).Draw(t, "future") == 0}
 		np := rapid.IntRange(1, 4).Draw(t, "producers")
 		for i := 0; i < np; i++ {
 			n := rapid.IntRange(1, 25).Draw(t, "n")
